@@ -77,7 +77,7 @@ class C17(Prop):
     translators = ['configs']
     header = ('From RP Require Import Configs.Model Gen.Configs Configs.Oracle.\n'
               'Open Scope string_scope.\nOpen Scope Z_scope.')
-    clauses = ['config_verifies', 'rm_exists', 'launch_methods_exist', 'scheduler_exists', 'executor_exists',
+    clauses = ['config_verifies', 'endpoints_defined', 'rm_exists', 'launch_methods_exist', 'scheduler_exists', 'executor_exists',
                'agent_config_exists', 'valid_request_sized', 'min_nodes', 'job_counts', 'agent_told_same']
     corr_name = ('Configs.Model(resolve/launch/factories) vs Session.get_resource_config, ResourceManager/'
                  'LaunchMethod/AgentSchedulingComponent/AgentExecutingComponent factories and '
@@ -106,6 +106,7 @@ class C17(Prop):
                    'batch_started() depends only on the job-id environment variable of the resource manager']
     exhaustive = True
     widen_cases = 3000
+    _sig_platforms = {}
 
     # ------------------------------------------------------------------ cases
     def cases(self, rng, tier):
@@ -327,6 +328,10 @@ class C17(Prop):
                          'skipped': [c.args[1] for c in log.exception.call_args_list if c.args[0] == 'skip lm %s']}
         except Exception as e:
             out['lm'] = {'exc': exc_name(e)}
+        out['skipped'] = [c.args[1] for c in log.exception.call_args_list if c.args[0] == 'skip lm %s']
+        out['names'] = {'rm_exists': str(rcfg.get('resource_manager')), 'scheduler_exists': str(rcfg.get('agent_scheduler')),
+                        'executor_exists': str(rcfg.get('agent_spawner')),
+                        'agent_config_exists': str(rcfg.get('agent_config'))}
         ses = mock.MagicMock()
         ses.rcfg = rcfg
         out['sched'] = self._factory(lambda: self.SC.create({}, ses), self.SC)
@@ -350,15 +355,13 @@ class C17(Prop):
         c._rp_version = '0.0'
         return c
 
-    def _prepare(self, rcfg, resource, descr, smt):
-        """real _prepare_pilot; returns (pilot, agent config keys as loaded from the agent_*.json)"""
+    def _prepare(self, rcfg, resource, descr, smt, loaded=None):
+        """real _prepare_pilot; returns (pilot, agent config keys as loaded from the agent_*.json);
+        `loaded` (a list) receives those keys even if the method raises later"""
         import radical.pilot.pmgr.launching.base as base
         ru = self.ru
-        loaded = []
+        loaded = [] if loaded is None else loaded
         real_config = ru.Config
-
-        class Spy(real_config):
-            pass
 
         def config(*a, **k):
             c = real_config(*a, **k)
@@ -444,12 +447,17 @@ class C17(Prop):
                 descr.setdefault(a, 'x')
                 if descr[a] is None:
                     descr[a] = 'x'
+            loaded = []
             try:
                 import copy
-                _, keys = self._prepare(copy.deepcopy(rcfg), rcfg.get('label'), descr, None)
-                out['agent'] = keys if keys is not None else {'exc': 'OtherError'}
+                self._prepare(copy.deepcopy(rcfg), rcfg.get('label'), descr, None, loaded)
             except Exception as e:
-                out['agent'] = {'exc': exc_name(e)}
+                if not loaded:
+                    out['agent'] = {'exc': exc_name(e)}
+            if loaded:
+                out['agent'] = loaded[0]
+            elif 'agent' not in out:
+                out['agent'] = {'exc': 'OtherError'}
             return out
         if k == 'size':
             try:
@@ -545,9 +553,26 @@ class C17(Prop):
 
     def signature(self, case, obs, clause):
         k = case['kind']
-        if k in ('resolve', 'size'):
-            return '%s:%s:%s.%s' % (clause, 'Session.get_resource_config' if k == 'resolve'
-                                    else 'PMGRLaunchingComponent._prepare_pilot', case['site'], case['res'])
+        if k == 'resolve':
+            # a part that does not exist is named by the part; other configuration defects by the platform
+            if obs and 'exc' not in obs:
+                if clause == 'launch_methods_exist':
+                    return '%s:ResourceManager._prepare_launch_methods:%s' % (
+                        clause, ','.join(sorted(set(obs.get('skipped', [])))) or 'order=%s' % ','.join(
+                            obs['lm'].get('order', [])) if isinstance(obs.get('lm'), dict) else '')
+                if clause in obs.get('names', {}):
+                    return '%s:factory:%s' % (clause, obs['names'][clause])
+            plat = '%s.%s' % (case['site'], case['res'])
+            seen = self._sig_platforms.setdefault(clause, [])
+            if plat not in seen:
+                seen.append(plat)
+            if seen.index(plat) >= 3:
+                plat = 'further platforms'
+            return '%s:Session.get_resource_config:%s' % (clause, plat)
+        if k == 'size':
+            # a sizing defect belongs to the code path, not to the platform
+            cond = 'nodes given' if case['nodes'] else ('cores+gpus requested' if case['gpus'] else 'cores requested')
+            return '%s:PMGRLaunchingComponent._prepare_pilot:%s' % (clause, cond)
         return '%s:%s' % (clause, k)
 
     def shrink(self, case):
@@ -555,8 +580,11 @@ class C17(Prop):
             return
         for f in ('backup', 'gpus', 'cores', 'nodes'):
             v = case[f]
-            for w in (0, 1, v // 2, v - 1):
-                if 0 <= w < v:
+            ws = [0, 1, v // 2, (3 * v) // 4] + ([v - 1] if v <= 16 else [v - 8])
+            seen = set()
+            for w in ws:
+                if 0 <= w < v and w not in seen:
+                    seen.add(w)
                     yield dict(case, **{f: w})
         if case['smt'] is not None:
             yield dict(case, smt=None)
